@@ -371,9 +371,33 @@ func ruleModeProvenance(c *Ctx, rule string) {
 		case *ssa.Const:
 			return nil
 		case *ssa.UnOp:
+			// a field of a local struct that a helper filled in and returned
+			if fa, ok := x.X.(*ssa.FieldAddr); ok {
+				if al, ok := fa.X.(*ssa.Alloc); ok {
+					if out, ok := structFieldDeps(al, fa.Field, deps, seen); ok {
+						return out
+					}
+				}
+			}
 			return deps(x.X, seen)
 		case *ssa.BinOp:
 			return append(deps(x.X, seen), deps(x.Y, seen)...)
+		case *ssa.Field:
+			if out, ok := returnedFieldDeps(x.X, x.Field, deps, seen); ok {
+				return out
+			}
+		case *ssa.Extract:
+			if call, ok := x.Tuple.(*ssa.Call); ok {
+				if cal := staticCallee(call); cal != nil && inModule(cal) && cal.Blocks != nil {
+					var out []string
+					for _, r := range returnsOf(cal) {
+						if x.Index < len(r.Results) {
+							out = append(out, deps(unspill(r.Results[x.Index]), seen)...)
+						}
+					}
+					return out
+				}
+			}
 		}
 		return []string{fmt.Sprintf("other:%T", v)}
 	}
@@ -608,7 +632,7 @@ func ruleContReqCancelled(c *Ctx, rule string) {
 	// in completeCommand: a loop over c.contReqs that cancels those of the command and keeps the others
 	cancels := false
 	var cancelCall ssa.Instruction
-	allInstrs(complete, func(i ssa.Instruction) {
+	deepInstrs(complete, 2, func(i ssa.Instruction) {
 		if call, ok := i.(ssa.CallInstruction); ok && callKey(call) == "(*ContinuationRequest).Cancel" {
 			cancels = true
 			cancelCall = i
@@ -616,7 +640,7 @@ func ruleContReqCancelled(c *Ctx, rule string) {
 	})
 	inLoop := cancelCall != nil && reaches2(cancelCall.Block(), cancelCall.Block())
 	storesBack := false
-	allInstrs(complete, func(i ssa.Instruction) {
+	deepInstrs(complete, 2, func(i ssa.Instruction) {
 		if st, ok := i.(*ssa.Store); ok {
 			if r, ok := fieldOf(st.Addr); ok && r.is("Client", "contReqs") {
 				storesBack = true
@@ -665,4 +689,76 @@ func ruleContReqCancelled(c *Ctx, rule string) {
 			c.check(tested, rule, fnKey(fn)+": Wait error tested", call.Pos(), "the error of Wait is tested before going on", "the error of ContinuationRequest.Wait is ignored: the payload is written although the server refused the literal")
 		})
 	}
+}
+
+// structFieldDeps: the dependencies of field k of the local struct cell al:
+// either a direct store into that field, or the cell was assigned a struct
+// value returned by a module helper, whose own field store is then followed.
+func structFieldDeps(al *ssa.Alloc, k int, deps func(ssa.Value, map[ssa.Value]bool) []string, seen map[ssa.Value]bool) ([]string, bool) {
+	var out []string
+	found := false
+	for _, ref := range *al.Referrers() {
+		switch x := ref.(type) {
+		case *ssa.FieldAddr:
+			if x.Field != k {
+				continue
+			}
+			for _, r2 := range *x.Referrers() {
+				if st, ok := r2.(*ssa.Store); ok && st.Addr == ssa.Value(x) {
+					found = true
+					out = append(out, deps(st.Val, seen)...)
+				}
+			}
+		case *ssa.Store:
+			if x.Addr == ssa.Value(al) {
+				if o, ok := returnedFieldDeps(x.Val, k, deps, seen); ok {
+					found = true
+					out = append(out, o...)
+				}
+			}
+		}
+	}
+	return out, found
+}
+
+// returnedFieldDeps: v is a struct value; when it is (an Extract of) the
+// result of a module function, follow field k into that function's returns.
+func returnedFieldDeps(v ssa.Value, k int, deps func(ssa.Value, map[ssa.Value]bool) []string, seen map[ssa.Value]bool) ([]string, bool) {
+	idx := 0
+	var call *ssa.Call
+	switch x := v.(type) {
+	case *ssa.Extract:
+		call, _ = x.Tuple.(*ssa.Call)
+		idx = x.Index
+	case *ssa.Call:
+		call = x
+	case *ssa.UnOp:
+		if al, ok := x.X.(*ssa.Alloc); ok {
+			return structFieldDeps(al, k, deps, seen)
+		}
+	}
+	if call == nil {
+		return nil, false
+	}
+	cal := staticCallee(call)
+	if cal == nil || !inModule(cal) || cal.Blocks == nil {
+		return nil, false
+	}
+	var out []string
+	found := false
+	for _, r := range returnsOf(cal) {
+		if idx >= len(r.Results) {
+			continue
+		}
+		rv := unspill(r.Results[idx])
+		if ld, ok := rv.(*ssa.UnOp); ok {
+			if al, ok := ld.X.(*ssa.Alloc); ok {
+				if o, ok := structFieldDeps(al, k, deps, seen); ok {
+					found = true
+					out = append(out, o...)
+				}
+			}
+		}
+	}
+	return out, found
 }
